@@ -5,7 +5,9 @@ code (A1, A6).  What contracts decide are the source-level hazards the property 
 free - iteration i of the prange loop writes only its own slice, reads nothing other iterations write, and its result
 does not depend on loop-carried state; (2) every element of the np.empty output buffers is assigned before it is read;
 (3) the random sample times of validate_terminal_currents influence nothing but the accept/reject decision, and for
-currents balanced at all times the decision does not depend on them."""
+currents balanced at all times the decision does not depend on them; (4) no loop, comprehension or order-exposing conversion
+iterates over a set (str hashes are randomised per process), checked syntactically over the numerical core; a hit is a candidate
+that is replayed natively with different PYTHONHASHSEED values."""
 import z3
 
 from pyvc import sym, instrument, vc as vcm, loops
@@ -20,8 +22,8 @@ TRUSTED = ["numba executes prange iterations with the semantics of the Python so
            "Triangle / qhull / SuperLU determinism is not under contract"]
 ASSUMPTIONS = ["identical bits across processes and thread counts are NOT decided by contracts (A1, A6); bounded native run in the thorough tier",
                "the user callbacks (terminal currents, vector potential, epsilon) are deterministic functions"]
-EXPLANATION = ("race freedom and full overwrite of the 7 parallel kernels (generated loop invariants, side conditions as obligations) and confinement of the "
-               "only random source; bit identity itself is covered only by a bounded native run (sha256 over thread counts)")
+EXPLANATION = ("race freedom and full overwrite of the 7 parallel kernels (generated loop invariants, side conditions as obligations), confinement of the "
+               "only random source, and a syntactic contract that nothing in the numerical core iterates over a hash-ordered set; bit identity itself is covered only by a bounded native run (sha256 over thread counts)")
 REC = ("C09.",)
 
 
@@ -107,12 +109,96 @@ def run_rng(mutate=None):
     return dict(obls=obls, paths=n, sources=[L.info()], consistent=sym.consistent())
 
 
+# ---------------------------------------------------------------------------------------------------------------------------------
+# (4) iteration order is a function of the inputs.  Python randomises str hashes per process (PYTHONHASHSEED), so anything that
+# iterates over a set - a loop, a comprehension, list()/tuple()/sum()/np.sum() of a set - runs in an order that differs between two
+# runs of the same script; floating-point sums and first-match searches over it are then not reproducible.  Syntactic contract over
+# the numerical core: no such iteration (sorted(set) is fine).  One obligation per function that mentions a set at all.
+ORDER_MODULES = ["tdgl.solver.solver", "tdgl.solver.runner", "tdgl.solver.euler", "tdgl.solver.screening", "tdgl.finite_volume.operators",
+                 "tdgl.finite_volume.mesh", "tdgl.finite_volume.edge_mesh", "tdgl.finite_volume.util", "tdgl.em", "tdgl.distance", "tdgl.parameter",
+                 "tdgl.device.device", "tdgl.device.meshing", "tdgl.geometry", "tdgl.solution.solution", "tdgl.solution.data", "tdgl.sources.constant",
+                 "tdgl.sources.scaling", "tdgl.sources.current_loop"]
+_ORDER_EXPOSING = {"list", "tuple", "sum", "enumerate", "zip", "iter", "next", "map", "reversed", "np.sum", "np.array", "np.asarray", "np.fromiter", "np.concatenate",
+                   "np.stack", "xp.sum", "xp.array", "xp.asarray", "math.fsum", "dict.fromkeys", "itertools.accumulate", "functools.reduce", "reduce"}
+
+
+def _set_iterations(src):
+    import ast
+
+    def is_set(e, names):
+        if isinstance(e, (ast.Set, ast.SetComp)):
+            return True
+        if isinstance(e, ast.Call) and isinstance(e.func, ast.Name) and e.func.id in ("set", "frozenset"):
+            return True
+        if isinstance(e, ast.Name) and e.id in names:
+            return True
+        if isinstance(e, ast.BinOp) and isinstance(e.op, (ast.Sub, ast.BitOr, ast.BitAnd, ast.BitXor)):
+            return is_set(e.left, names) or is_set(e.right, names)
+        if (isinstance(e, ast.Call) and isinstance(e.func, ast.Attribute) and e.func.attr in ("union", "intersection", "difference", "symmetric_difference", "copy")
+                and is_set(e.func.value, names)):
+            return True
+        return False
+    tree = ast.parse(src)
+    out = {}
+    for fn in ast.walk(tree):
+        if not isinstance(fn, (ast.FunctionDef, ast.AsyncFunctionDef)):
+            continue
+        names = set()
+        for _ in range(3):
+            for n in ast.walk(fn):
+                if isinstance(n, ast.Assign) and len(n.targets) == 1 and isinstance(n.targets[0], ast.Name) and is_set(n.value, names):
+                    names.add(n.targets[0].id)
+        mentions = bool(names) or any(is_set(n, set()) for n in ast.walk(fn) if isinstance(n, ast.expr))
+        if not mentions:
+            continue
+        hits = []
+        for n in ast.walk(fn):
+            its = []
+            if isinstance(n, (ast.For, ast.AsyncFor)):
+                its = [n.iter]
+            elif isinstance(n, (ast.ListComp, ast.GeneratorExp, ast.DictComp)):
+                its = [g.iter for g in n.generators]
+            elif isinstance(n, ast.SetComp):
+                its = []        # a set built from a set: order not exposed
+            elif isinstance(n, ast.Call) and n.args and ast.unparse(n.func) in _ORDER_EXPOSING:
+                its = [a for a in n.args[:1]]
+            elif isinstance(n, ast.Starred):
+                its = [n.value]
+            for it in its:
+                if is_set(it, names):
+                    hits.append(f"line {it.lineno}: {ast.unparse(it)[:80]}")
+        out[fn.name] = hits
+    return out
+
+
+def run_iteration_order(mutate=None):
+    import os
+
+    def body():
+        srcs = []
+        n = 0
+        for mod in ORDER_MODULES:
+            try:
+                path, src = instrument.read_source(mod, [(o, nw) for (m, o, nw) in (mutate or []) if m == mod])
+            except Exception:
+                continue
+            srcs.append(dict(module=mod, path=path))
+            for fname, hits in sorted(_set_iterations(src).items()):
+                n += 1
+                sym.check_terms(f"C09.iteration_order_is_a_function_of_the_inputs[{mod.split('.', 1)[1]}:{fname}]", not hits, note="; ".join(hits))
+        check("C09.iteration_order.modules_scanned", z3.BoolVal(len(srcs) >= 12), note=str(len(srcs)))
+        body.srcs = srcs
+    obls, n = explore(body)
+    return dict(obls=obls, paths=n, sources=getattr(body, "srcs", []), consistent=True)
+
+
 def units():
     us = [Unit("get_A_induced_numba", c13.M + ":get_A_induced_numba", run_kernel_screening, props=["C09"], timeout=600),
           Unit("_biot_savart_2d_z", c20.EM + ":_biot_savart_2d_z", _k(c20.run_bs_z), props=["C09"], timeout=600),
           Unit("_biot_savart_2d_vector", c20.EM + ":_biot_savart_2d_vector", _k(c20.run_bs_vec), props=["C09"], timeout=600)]
     for nm, dim, root in c20.KERNELS:
         us.append(Unit(nm, c20.DM + ":" + nm, _k(c20.run_dist(nm, dim, root)), props=["C09"], timeout=300))
+    us.append(Unit("iteration order", "tdgl (numerical core, syntactic)", run_iteration_order, props=["C09"], timeout=300))
     us.append(Unit("validate_terminal_currents[rng]", "tdgl.solver.solver:validate_terminal_currents", run_rng, props=["C09"], timeout=300))
     return us
 
@@ -169,7 +255,56 @@ print("SHA", h.hexdigest())
     return bad, n
 
 
+def native_hashseed(seeds=(1, 2, 3, 4, 5, 6)):
+    """BOUNDED / replay: the same five-terminal simulation in fresh processes that differ only in PYTHONHASHSEED"""
+    import os
+    import subprocess
+    import sys
+    import tempfile
+    prog = r'''
+import sys, os, hashlib
+sys.path.insert(0, os.environ["PYVC_REPO_PATH"])
+import logging; logging.disable(logging.CRITICAL)
+import numpy as np, h5py, tdgl
+from tdgl.geometry import box
+layer = tdgl.Layer(coherence_length=0.5, london_lambda=2, thickness=0.1, gamma=1)
+film = tdgl.Polygon("film", points=box(4, 2))
+T = lambda name, w, h, dx, dy: tdgl.Polygon(name, points=box(w, h)).translate(dx=dx, dy=dy)
+terms = [T("alpha", 0.1, 1.0, -2, 0), T("bravo", 0.1, 1.0, 2, 0), T("charlie", 0.8, 0.1, -1, 1), T("delta", 0.8, 0.1, 1, 1), T("echo", 0.8, 0.1, 0, -1)]
+dev = tdgl.Device("d", layer=layer, film=film, terminals=terms, length_units="um")
+dev.make_mesh(max_edge_length=0.5, smooth=5)
+I = dict(alpha=1.1, bravo=-0.3, charlie=0.7e-3, delta=-1.4007)
+I["echo"] = -sum(I.values())
+opts = tdgl.SolverOptions(solve_time=0.3, output_file=sys.argv[1], save_every=50, progress_bar=False) if "progress_bar" in tdgl.SolverOptions.__dataclass_fields__ else tdgl.SolverOptions(solve_time=0.3, output_file=sys.argv[1], save_every=50)
+sol = tdgl.solve(dev, opts, applied_vector_potential=0.1, terminal_currents=I)
+h = hashlib.sha256()
+with h5py.File(sol.path, "r") as f:
+    def visit(name, obj):
+        if isinstance(obj, h5py.Dataset) and "solution/" not in name:
+            h.update(name.encode()); h.update(np.ascontiguousarray(obj[()]).tobytes())
+    f["data"].visititems(visit)
+print("SHA", h.hexdigest())
+'''
+    repo = os.environ.get("PYVC_REPO", "/repo")
+    digests = {}
+    for hs in seeds:
+        with tempfile.TemporaryDirectory() as td:
+            env = dict(os.environ, PYTHONHASHSEED=str(hs), PYVC_REPO_PATH=repo, NUMBA_NUM_THREADS="4", TQDM_DISABLE="1")
+            p = subprocess.run([sys.executable, "-c", prog, os.path.join(td, "o.h5")], capture_output=True, text=True, env=env, timeout=900)
+            d = [l for l in p.stdout.splitlines() if l.startswith("SHA")]
+            digests[hs] = d[0] if d else "ERR " + p.stderr[-300:]
+    bad = []
+    if len(set(digests.values())) != 1:
+        bad.append(dict(what="the same five-terminal simulation gives different bits in processes that differ only in PYTHONHASHSEED", digests=digests))
+    return bad, len(seeds)
+
+
 def replay(unit, obl):
+    if unit == "iteration order":
+        bad, n = native_hashseed()
+        if bad and not any(v.startswith("ERR") for v in bad[0]["digests"].values()):
+            return dict(confirmed=True, failing_input=bad[0], evaluations=n)
+        return dict(confirmed=False, evaluations=n, detail=bad[:1])
     return dict(confirmed=False, note="race-freedom / overwrite obligations are about all schedules: no native replay; the obligation and solver output are in this file")
 
 
@@ -187,7 +322,9 @@ def thorough(seed=0):
     from pyvc import harness
     summary, broken = harness.run_mutants("checks.c09", units(), MUTANTS)
     bad, n = native(seed)
-    bnd = dict(kind="bounded", evaluations=n, failing=len(bad), samples=bad[:2], bound="3 configurations x NUMBA_NUM_THREADS in {1,4,16}, fresh processes, sha256")
+    bad2, n2 = native_hashseed()
+    bad, n = bad + bad2, n + n2
+    bnd = dict(kind="bounded", evaluations=n, failing=len(bad), samples=bad[:2], bound="3 configurations x NUMBA_NUM_THREADS in {1,4,16} + one five-terminal run x 6 PYTHONHASHSEED values, fresh processes, sha256")
     vio = []
     if bad:
         import json, os
